@@ -121,10 +121,13 @@ class Parser:
         self._tokens: Iterator[list[str]] = Parser._off()
         self._next: list[str] = []
         self._data: Generator[list[str], None, None] | None = None
+        # line of the source each tokenised statement starts on (the tokeniser runs one statement ahead)
+        self._lines: deque[int] = deque()
 
     def clear(self) -> None:
         self.finished = False
         self.number = 0
+        self._lines.clear()
         self.line = []
         self.tokeniser.clear()
         self.end = ''
@@ -147,6 +150,7 @@ class Parser:
     def _tokenise(self, iterator: Iterable[str]) -> Generator[list[str], None, None]:
         for parsed in tokens(iterator):
             words = [word for y, x, word in parsed]
+            self._lines.append(parsed[0][0] if parsed else 0)
             self.line = words  # Store the word list, not a joined string
             # ignore # lines
             # set Location information
@@ -215,7 +219,8 @@ class Parser:
             self.tokeniser.announce = False
 
     def __call__(self) -> list[str]:
-        self.number += 1
+        # the line of the file the statement starts on (what error messages call "line")
+        self.number = self._lines.popleft() if self._lines else self.number + 1
         try:
             self.line, self._next = self._next, next(self._tokens)
             # an empty line has no last token.  The file readers reject an empty or blank
